@@ -30,7 +30,7 @@ def one(args):
         for prop in props:
             env = dict(os.environ, PYXAB_EVIDENCE_DIR=str(tmp / "ev"))
             r = subprocess.run(["python3-vt", str(VERIF / "check.py"), "--property", prop, "--repo", str(tmp), "--tier", tier, "--no-selftest"],
-                               capture_output=True, text=True, env=env, cwd=str(VERIF))
+                               capture_output=True, text=True, env=dict(env, PYXAB_CHECK_TIMEOUT="180"), cwd=str(VERIF))
             lines = [l for l in r.stdout.splitlines() if l.startswith("  ") or l.startswith("ANALYSIS-ERROR")]
             out.append((sid, prop, r.returncode, (lines[0].strip()[:230] if lines else "")))
     finally:
